@@ -117,7 +117,7 @@ def evaluate(chk, scns, lines, impl, outs, variant, dist):
 def search(chk, rnd):
     """directed search for a concrete failing input (implementation + oracle only): many unknowns, reboot at every position
        of parity processing"""
-    budget = 150 if chk.quick() else 1500
+    budget = 150 if chk.quick() else 800
     scns = []
     for _ in range(budget):
         b = big_loss_base(rnd)
@@ -136,12 +136,15 @@ def search(chk, rnd):
 def run(chk):
     chk.prove()
     rnd = random.Random(chk.seed)
-    for variant, ffr, rounds in (("matrix", False, 45 if chk.quick() else 1500), ("matrix-rel", False, 12 if chk.quick() else 300)):
+    for variant, ffr, rounds in (("matrix", False, 45 if chk.quick() else 600), ("matrix-rel", False, 12 if chk.quick() else 150)):
         scns = []
         for _ in range(rounds):
             scns += twin_scenarios(rnd, chk.quick(), ffr)
         for _ in range(rounds // 8):
             b = big_loss_base(rnd, ffr)          # more than 8 unknowns: matrix rows span several bytes
+            scns += twin_scenarios(rnd, chk.quick(), ffr, base=b)
+        for _ in range(max(2, rounds // 10)):
+            b = session.build_delivery(rnd, ffr=ffr, small=True, wrapped=True)     # the session's pair wraps the ring end
             scns += twin_scenarios(rnd, chk.quick(), ffr, base=b)
         lines, impl, outs = session.run(chk, scns, variant=variant, stream="session-twin")
         dist = {"reference_runs": 0, "single_reboot": 0, "multi_reboot": 0, "after_completion_before_mark": 0, "after_refusal": 0}
@@ -150,6 +153,6 @@ def run(chk):
     if chk.broken and not chk.failures:
         search(chk, rnd)
     return chk.finish(level="proof",
-        rule="session-twin: for each delivery scenario (geometries with capacity >= 1) one uninterrupted run and runs with drop + try_recover before fragment p for every p (all positions for short scripts, a sample incl. first / last / after completion otherwise), "
+        rule="session-twin: for each delivery scenario (geometries with capacity >= 1; ring positions from random histories, and explicitly the pair that wraps the ring end) one uninterrupted run and runs with drop + try_recover before fragment p for every p (all positions for short scripts, a sample incl. first / last / after completion otherwise), "
              "several positions at once and at every position; overflow-checked and release builds; non-trivial = every twin run; distinct by case text",
         trusted=core.TRUSTED_COMMON)
